@@ -292,6 +292,8 @@ def gen_region(rng):
     hi = max(lo, min(tn if stop_ is None else stop, tn))
     sel = len(range(lo, hi, step or 1))
     sn = sel if rng.random() < 0.8 else max(0, sel + rng.choice([-1, 1]))
+    if start_ is None and stop_ is None and step is None and rng.random() < 0.7:
+        sn = tn            # whole-array store (no region): mostly with the right shape
     sc = rng.choice([tc, tc, tc, rng.randint(1, 6)])
     sc = max(1, min(sc, max(1, sn)))
     return dict(srcLen=sn, srcChunk=sc, tgtLen=tn, tgtChunk=tc, start=start_, stop=stop_, step=step)
@@ -397,6 +399,8 @@ def g_roll(rng):
     nd = len(shape)
     r = rng.random()
     if r < 0.3:
+        # axis=None flattens first (reshape): keep that to 1-d inputs, reshape is not modelled here
+        shape, chunks, nd = shape[:1], chunks[:1], 1
         axes, axis = None, None
         shift, ss = rng.choice([(1, "int"), (-2, "int"), (1.5, "other"), ((1, 2), "tuple:2")])
     else:
@@ -502,16 +506,18 @@ def g_index(rng):
     for _ in range(nsel):
         n = shape[ax] if ax < nd else 3
         r = rng.random()
-        if r >= 0.55 and r < 0.8 and narr >= 1 and not (rng.random() < 0.15 and req and req[-1][0] == "a"):
-            r = rng.random() * 0.55          # at most one array index, except a rare adjacent pair of int arrays
+        if 0.55 <= r < 0.8 and narr >= 1:
+            # at most one array index, except a rare adjacent pair of int arrays of one length
+            r = 0.6 if (rng.random() < 0.15 and req and isinstance(req[-1], str) and req[-1][0] == "a") else rng.random() * 0.55
         if r < 0.3:
             i = rng.randint(-n - 1, n)
             key.append(i); req.append("i:%d" % i); ax += 1
         elif r < 0.55:
             a_, b_ = sorted([rng.randint(0, n), rng.randint(0, n + 1)])
             st = rng.choice([None, 1, 2, 3, -1, -2])
-            key.append(slice(a_, b_, st) if st is None or st > 0 else slice(b_, a_, st) if rng.random() < 0.7 else slice(None, None, st))
-            req.append("s"); ax += 1
+            sl = slice(a_, b_, st) if st is None or st > 0 else slice(b_, a_, st) if rng.random() < 0.7 else slice(None, None, st)
+            key.append(sl)
+            req.append(("slice", n)); ax += 1
         elif r < 0.72:
             vals = [rng.randint(-n, n - 1) for _ in range(arr_len or rng.randint(1, 4))]
             arr_len = len(vals)
@@ -528,6 +534,20 @@ def g_index(rng):
             key.append(Ellipsis); req.append("e"); used_ell = True
         else:
             key.append(1.5); req.append("o"); ax += 1
+    # an array index next to a slice with a step other than 1 is refused (merge_chunks / flip chunk mismatch: ValueError,
+    # not modelled): unit steps then
+    for j, rq in enumerate(req):
+        if isinstance(rq, tuple):
+            sl, n = key[j], rq[1]
+            if narr >= 1 and sl.step is not None and sl.step != 1:
+                lo_, hi_ = sorted([sl.start or 0, sl.stop if sl.stop is not None else n])
+                sl = slice(lo_, hi_, 1)
+                key[j] = sl
+            neg_flip = sl.step is not None and sl.step < 0 and len(range(*sl.indices(n))) >= 2
+            req[j] = "S" if neg_flip else "s"
+    if narr >= 1 and "o" in req:       # ndindex's own ordering of type errors vs array checks is not modelled
+        keep = [j for j, rq in enumerate(req) if rq != "o"]
+        key, req = [key[j] for j in keep], [req[j] for j in keep]
     k = tuple(key)
 
     def thunk():
@@ -644,8 +664,15 @@ def corr_keys(ctx, n):
                         keys = ["%d:%d" % (names.index(nm), co[0]) for nm, co in flat_keys(f(ChunkKey("out", (bi,)))) if nm in names]
                         add("concatkeys|%s|%s|%d|%d" % (ls(sizes), ls(csz), C, bi), " ".join(keys), {"sizes": sizes, "csizes": csz, "C": C, "bi": bi}, kind="keys:concat")
                 elif fam == "region":
-                    p = gen_region(rng)
-                    src, z, res = build_region(p)
+                    for _try in range(50):
+                        p = gen_region(rng)
+                        try:
+                            src, z, res = build_region(p)
+                            break
+                        except ValueError:
+                            continue
+                    else:
+                        continue
                     y = res[0]
                     op = op_of(y)
                     f = op.pipeline.config.back_key_function
@@ -914,6 +941,18 @@ def classify(build, config, phase, e, params=None):
     msg2 = str(e2)
     shape_err = (isinstance(e2, ValueError) and "could not broadcast" in msg2) or \
                 (isinstance(e2, IndexError) and ("tuple index out of range" in msg2 or "too many indices" in msg2))
+    if qual == "clip" and isinstance(e2, TypeError) and "a_max" in msg2 and len(cfg.reads_map) == 2:
+        return "clip-min-only"
+    if isinstance(e2, ValueError) and any(w in msg2 for w in ("broadcast", "shape-mismatch")) \
+            and qual not in ("_read_stack_chunk", "qr", "_store_array.<locals>.<lambda>", "_repeat"):
+        # unify_chunks asked for a rechunk of a zero-size operand, which `_rechunk_plan` skips: blocks stay misaligned
+        geo = [chunks_of(p) for p in cfg.reads_map.values()]
+        if any(0 in shp for _, shp in geo) and len(geo) >= 2:
+            return "empty-operands-unaligned"
+    if qual == "_repeat" and shape_err:
+        kw = getattr(cfg.function, "keywords", {}) or {}
+        if isinstance(kw.get("axis"), int) and kw["axis"] < 0 and kw.get("repeats", 0) >= 1:
+            return "repeat-negative-axis"
     if qual == "_read_stack_chunk" and shape_err:
         geoms = {chunks_of(p) for p in cfg.reads_map.values()}
         if len(geoms) > 1:
@@ -929,7 +968,11 @@ def classify(build, config, phase, e, params=None):
         sch, _ = chunks_of(src)
         tch = tuple(tgt.array.chunks)
         stepped = params.get("step") not in (None, 1)
-        if stepped or tuple(max(c) for c in sch) != tuple(tch):
+        whole = params.get("whole_array", False)
+        if whole:
+            if tuple(src.array.shape) != tuple(tgt.array.shape):
+                return "store-shape-unchecked"
+        elif stepped or tuple(max(c) for c in sch) != tuple(tch):
             return "region-chunk-mismatch"
     if isinstance(e2, KeyError) and params.get("family") == "map_blocks_late_contraction":
         k = e2.args[0] if e2.args else None
@@ -1018,7 +1061,8 @@ def stream_cases(rng):
     yield "stack", (lambda: xp.stack([arr(shape, c1), arr(shape, c2)], axis=ax)), {"op": "stack", "shape": shape, "chunks": [c1, c2], "axis": ax}, {}
     # region store
     p = gen_region(rng)
-    yield "region", (lambda p=p: build_region(p)[2]), dict(p, op="store-region"), {"step": p["step"]}
+    yield "region", (lambda p=p: build_region(p)[2]), dict(p, op="store-region"), \
+        {"step": p["step"], "whole_array": p["start"] is None and p["stop"] is None and p["step"] is None}
     # repeat incl. 0 and negative axis
     shape, ch = rand_geom(rng, hi=5)
     reps = rng.choice([0, 0, 1, 2, 3])
